@@ -141,12 +141,12 @@ var otherNamePool = []NameSpec{
 // StdDG11 returns the fixed field values used by the enumeration, with the given presence mask.
 func StdDG11(present uint16, nOther int, bare, bcdDate bool) DG11Spec {
 	return DG11Spec{Present: present,
-		Name:           NameSpec{Primary: []string{"SMITH", "BAKER"}, Secondary: []string{"JOHN", "J"}},
-		OtherNames:     otherNamePool[:nOther], OtherNamesBare: bare,
+		Name:       NameSpec{Primary: []string{"SMITH", "BAKER"}, Secondary: []string{"JOHN", "J"}},
+		OtherNames: otherNamePool[:nOther], OtherNamesBare: bare,
 		PersonalNumber: "123456789012", FullDOB: "19740812", BCDDate: bcdDate,
-		PlaceOfBirth:   []string{"ANYTOWN", "MN"},
-		Address:        []string{"123 MAPLE RD", "ANYTOWN", "MN"},
-		Telephone:      "16125551212", Profession: "TRAVEL AGENT", Title: "DR", PersonalSummary: "VIP TRAVELLER",
+		PlaceOfBirth: []string{"ANYTOWN", "MN"},
+		Address:      []string{"123 MAPLE RD", "ANYTOWN", "MN"},
+		Telephone:    "16125551212", Profession: "TRAVEL AGENT", Title: "DR", PersonalSummary: "VIP TRAVELLER",
 		ProofOfCitizenship: Image(MagicJPEG, 11, 60), OtherTravelDocs: []string{"P1234567", "I7654321X"}, Custody: "NONE RECORDED"}
 }
 
